@@ -1911,6 +1911,18 @@ pub enum PropertyKey {
 }
 
 impl PropertyKey {
+    /// Key for a property named by a host-supplied string: canonical array
+    /// indices ("0", "42") become `Index` keys, exactly as script member
+    /// access canonicalises them; everything else is a `String` key.
+    pub fn from_name(name: &str) -> Self {
+        if let Ok(idx) = name.parse::<u32>()
+            && idx.to_string() == name
+        {
+            return PropertyKey::Index(idx);
+        }
+        PropertyKey::String(JsString::from(name))
+    }
+
     pub fn from_value(value: &JsValue) -> Self {
         match value {
             JsValue::Number(n) => {
